@@ -438,7 +438,80 @@ theorem nested_default_no_processes (top : BackendClass × Nat) (hc : top.1 ≠ 
   apply thread_backend_no_processes _ _ _ _ _ _ hr
   rcases hcase with ⟨_, h⟩ | ⟨_, h⟩ <;> rw [h] <;> rfl
 
+/-! ## A sequence of calls on the reusable loky executor -/
+
+/-- What an executor looks like between two calls: never more live workers than `_max_workers`,
+and none before the first submit. -/
+def PoolWF (p : Pool) : Prop := p.alive ≤ p.maxWorkers ∧ (p.started = false → p.alive = 0)
+
+/-- `resize_worker_count_eq`. Whatever the previous calls asked for — more workers, fewer, the same
+number, or nothing yet — the call that asks the reusable executor for `n` workers runs on exactly
+`n` live worker processes (growing spawns the difference, SHRINKING retires the surplus), and the
+executor is again well-formed for the next call. By induction this holds along any sequence of
+calls with growing and shrinking `n_jobs`. -/
+theorem resize_worker_count_eq (cur : Option Pool) (same_args : Bool) (n : Nat)
+    (h : ∀ p, cur = some p → PoolWF p) :
+    (submitEnsure (getReusableExecutor cur same_args n)).alive = n ∧
+    (submitEnsure (getReusableExecutor cur same_args n)).maxWorkers = n ∧
+    PoolWF (submitEnsure (getReusableExecutor cur same_args n)) := by
+  have fresh : (submitEnsure (Pool.fresh n)).alive = n ∧ (submitEnsure (Pool.fresh n)).maxWorkers = n ∧
+      PoolWF (submitEnsure (Pool.fresh n)) := by
+    simp [submitEnsure, Pool.fresh, PoolWF]
+  cases cur with
+  | none => exact fresh
+  | some p =>
+    obtain ⟨h1, h2⟩ := h p rfl
+    simp only [getReusableExecutor]
+    cases same_args with
+    | false => exact fresh
+    | true =>
+      simp only [if_true]
+      unfold resize
+      by_cases hn : n = p.maxWorkers
+      · subst hn
+        simp only [if_true, submitEnsure, PoolWF]
+        refine ⟨by omega, rfl, by omega, by simp⟩
+      · rw [if_neg hn]
+        cases hs : p.started with
+        | false =>
+          have := h2 hs
+          simp [submitEnsure, PoolWF, this]
+        | true =>
+          simp only [Bool.not_true, Bool.false_eq_true, if_false, submitEnsure, PoolWF]
+          refine ⟨by omega, rfl, by omega, by simp⟩
+
+/-- …along a whole sequence of calls (each may or may not find the executor reusable). -/
+theorem sequence_worker_count_eq (calls : List (Bool × Nat)) (cur : Option Pool)
+    (h : ∀ p, cur = some p → PoolWF p) :
+    ∀ st, st = calls.foldl (fun (acc : Option Pool × List Nat) c =>
+        let p := submitEnsure (getReusableExecutor acc.1 c.1 c.2)
+        (some p, acc.2 ++ [p.alive])) (cur, []) → st.2 = calls.map (·.2) := by
+  suffices H : ∀ (calls : List (Bool × Nat)) (cur : Option Pool) (done : List Nat),
+      (∀ p, cur = some p → PoolWF p) →
+      (calls.foldl (fun (acc : Option Pool × List Nat) c =>
+        let p := submitEnsure (getReusableExecutor acc.1 c.1 c.2)
+        (some p, acc.2 ++ [p.alive])) (cur, done)).2 = done ++ calls.map (·.2) by
+    intro st hst; rw [hst]; simpa using H calls cur [] h
+  intro calls
+  induction calls with
+  | nil => intro cur done _; simp
+  | cons c rest ih =>
+    intro cur done hwf
+    obtain ⟨ha, _, hw⟩ := resize_worker_count_eq cur c.1 c.2 hwf
+    simp only [List.foldl_cons, List.map_cons]
+    rw [ih _ _ (fun p hp => by cases hp; exact hw), ha]
+    simp
+
+/-- The shortcut "shrinking needs no spawn, just lower `_max_workers`" would leave the surplus
+workers alive: 4 then 2 keeps 4 (witness of why the shrink branch matters). -/
+theorem shrink_shortcut_counterexample :
+    let p : Pool := ⟨4, 4, true⟩
+    (submitEnsure { p with maxWorkers := 2 }).alive = 4 ∧ (submitEnsure (resize p 2)).alive = 2 := by
+  decide
+
 /-! ## Non-vacuity -/
+example : PoolWF ⟨4, 4, true⟩ := by simp [PoolWF]
+example : (submitEnsure (getReusableExecutor (some ⟨2, 2, true⟩) true 4)).alive = 4 := by decide
 example : guarded .loky (some 0) ⟨false, false, true, 0, 8⟩ = false := by decide
 example : guarded .multiprocessing (some 1) ⟨false, false, false, 0, 8⟩ = true := by decide
 example : effectiveNJobs .loky (some 0) ⟨false, false, true, 0, 8⟩ (some (-2)) = .ok 7 := by decide
